@@ -276,6 +276,45 @@ func c18ChecksumShape(c *Ctx) {
 			r.Undecided("C18-K7", key("index parity of "+shortDesc(ia.Index, 3)), c.P.ipos(ia), "the summation loop is not in the recognised form (counter from 0 step 2, trailing byte at len−1)")
 		}
 	})
+	// a whole 16-bit word taken at an even offset with binary.BigEndian.Uint16(buf[i:]) is the even byte shifted by 8 plus
+	// the odd byte: it stands for both loads
+	allInstrs(f, func(in ssa.Instruction) {
+		cl, ok := in.(*ssa.Call)
+		if !ok || cl.Call.StaticCallee() == nil || funcKey(cl.Call.StaticCallee()) != "(encoding/binary.bigEndian).Uint16" || len(cl.Call.Args) != 2 {
+			return
+		}
+		sl, ok := cl.Call.Args[1].(*ssa.Slice)
+		if !ok || sl.X != ssa.Value(buf) || sl.Low == nil {
+			return
+		}
+		even := false
+		if idx, ok := sl.Low.(*ssa.Phi); ok {
+			even = true
+			isCounter := false
+			for _, e := range idx.Edges {
+				if k, ok := intConst(e); ok {
+					if k%2 != 0 {
+						even = false
+					}
+					continue
+				}
+				if bo, ok := e.(*ssa.BinOp); ok && bo.Op == token.ADD && bo.X == ssa.Value(idx) {
+					if k, ok := intConst(bo.Y); ok && k%2 == 0 {
+						isCounter = true
+						continue
+					}
+				}
+				even = false
+			}
+			even = even && isCounter
+		}
+		if even {
+			n += 2
+			r.OK("C18-K7", key("16-bit words are taken big-endian at even offsets"), c.P.ipos(cl), "binary.BigEndian.Uint16(buf[i:]) with i an even counter", "")
+		} else {
+			r.Undecided("C18-K7", key("offset parity of a word load"), c.P.ipos(cl), "a 16-bit word is loaded at an offset that is not an even loop counter")
+		}
+	})
 	r.Check(n == 3, "C18-K7", key("three byte loads: trailing odd byte, even and odd byte of each word"), c.P.pos(f.Pos()), "instance count", fmt.Sprintf("%d loads of the buffer", n))
 	// the trailing byte is handled only when the length is odd
 	okOdd := false
